@@ -4,6 +4,7 @@ package main
 
 import (
 	"fmt"
+	"go/ast"
 	"go/constant"
 	"go/token"
 	"go/types"
@@ -818,7 +819,7 @@ func runBN(c *Ctx) (obls []Obl) {
 }
 
 // operand description for keys
-func bnDesc(f *ssa.Function, op ssa.Value, what string, ordinal int) string {
+func bnDesc(f *ssa.Function, _ ssa.Value, what string, ordinal int) string {
 	return fmt.Sprintf("%s/%s#%d", funcKey(f), what, ordinal)
 }
 
@@ -853,6 +854,41 @@ func bnBounds(c *Ctx, a *flAgg) {
 							what = "strindex"
 							coll = ins.X
 						}
+					}
+					// BN-const: a constant-length value (string constant) indexed or sliced by a variable
+					if k, ok := coll.(*ssa.Const); ok && k.Value != nil && k.Value.Kind() == constant.String {
+						clen := int64(len(constant.StringVal(k.Value)))
+						if why, ok := stringerTable(c, f, clen); ok {
+							ord["const"]++
+							a.ok("BN-const", bnDesc(f, nil, "const", ord["const"]), why, ins.Pos())
+							continue
+						}
+						for oi, op := range ops {
+							if op == nil {
+								continue
+							}
+							if _, isC := bnConst(op); isC {
+								continue
+							}
+							ord["const"]++
+							key := bnDesc(f, op, "const", ord["const"])
+							h, okh := an.hi(op, b, 0)
+							limit := clen - 1
+							if what == "slice" {
+								limit = clen
+							}
+							_ = oi
+							if okh && h != math.MinInt64 && h <= limit {
+								a.ok("BN-const", key, fmt.Sprintf("operand <= %d on a constant of length %d", h, clen), ins.Pos())
+							} else {
+								hs := "unknown"
+								if okh && h != math.MinInt64 {
+									hs = fmt.Sprint(h)
+								}
+								a.bad("BN-const", key, fmt.Sprintf("a constant string of length %d is %sd with %s whose upper bound is %s (allowed: %d): out of range panics", clen, what, shortVal(op), hs, limit), ins.Pos())
+							}
+						}
+						continue
 					}
 					for _, op := range ops {
 						if op == nil {
@@ -1157,4 +1193,71 @@ func lenOfOtherPlus(v ssa.Value) (P ssa.Value, extra int64, ok bool) {
 		}
 	}
 	return nil, 0, false
+}
+
+// stringerTable verifies the index table of a stringer-generated String
+// method: name[index[i]:index[i+1]] is in range when the table is
+// non-decreasing, ends at len(name), and i is guarded by the table length.
+func stringerTable(c *Ctx, f *ssa.Function, nameLen int64) (string, bool) {
+	if f.Name() != "String" || f.Syntax() == nil {
+		return "", false
+	}
+	_, file := c.L.FileOf(f.Pos())
+	if file == nil || len(file.Comments) == 0 || !strings.Contains(file.Comments[0].Text(), "Code generated by \"stringer") {
+		return "", false
+	}
+	pkg, _ := c.L.FileOf(f.Pos())
+	ok := false
+	why := ""
+	for _, d := range file.Decls {
+		gd, isG := d.(*ast.GenDecl)
+		if !isG || gd.Tok != token.VAR {
+			continue
+		}
+		for _, sp := range gd.Specs {
+			vs, isV := sp.(*ast.ValueSpec)
+			if !isV || len(vs.Values) != 1 || !strings.HasSuffix(vs.Names[0].Name, "_index") {
+				continue
+			}
+			cl, isC := vs.Values[0].(*ast.CompositeLit)
+			if !isC {
+				continue
+			}
+			prev := int64(0)
+			mono := true
+			last := int64(-1)
+			for _, e := range cl.Elts {
+				tv, have := pkg.TypesInfo.Types[e]
+				if !have || tv.Value == nil {
+					mono = false
+					break
+				}
+				v, _ := constant.Int64Val(tv.Value)
+				if v < prev {
+					mono = false
+				}
+				prev, last = v, v
+			}
+			if mono && last == nameLen {
+				ok = true
+				why = fmt.Sprintf("stringer table %s verified: %d non-decreasing offsets ending at len(name)=%d", vs.Names[0].Name, len(cl.Elts), nameLen)
+			}
+		}
+	}
+	if !ok {
+		return "", false
+	}
+	// the index is guarded against the table length
+	guarded := false
+	for _, b := range f.Blocks {
+		if ifi, isIf := b.Instrs[len(b.Instrs)-1].(*ssa.If); isIf {
+			if bo, isB := ifi.Cond.(*ssa.BinOp); isB && (bo.Op == token.GEQ || bo.Op == token.LSS || bo.Op == token.GTR || bo.Op == token.LEQ) {
+				guarded = true
+			}
+		}
+	}
+	if !guarded {
+		return "", false
+	}
+	return why, true
 }
